@@ -122,7 +122,8 @@ files, sizes, cap, out = json.load(open(sys.argv[1][1:])) if sys.argv[1].startsw
 res = []
 for f in files:
     beh = tlc.parse_sim_file(Path(f)) if f.endswith(".json") is False else [tuple(x) for x in json.load(open(f))]
-    r = shm.replay(beh, sizes, cap, fast_disk="/sim_fast" in f)
+    # a store named after a long host name (Executor: "sCasc" + host; here a 19-character fully qualified node name)
+    r = shm.replay(beh, sizes, cap, fast_disk="/sim_fast" in f, prefix="sCascnode-1234.cluster01" if "/sim_longname" in f else "t")
     r["file"] = f
     r["actions"] = [list(map(str, s["last"])) for _, s in beh[1:]]
     r["tainted"] = [sorted(s["tainted"]) for _, s in beh[1:]]
@@ -229,6 +230,7 @@ def run_engine(ctx: Ctx) -> dict:
     # the "fast disk" schedule: page-out jobs run to their end inside the submit (Shm!FastDiskSpec)
     sims += [(f, KEYS, CAP) for f in _simulate(scratch, "fast", consts(AllowStale="TRUE", MaxClock="30", MaxReaders="3"), num // 2, 40,
                                                ctx.seed + 14, spec="FastDiskSpec")]
+    sims += [(f, KEYS, CAP) for f in _simulate(scratch, "longname", consts(MaxClock="30"), max(num // 4, 50), 30, ctx.seed + 15)]
     groups: dict[tuple, list[Path]] = {}
     for f, sizes, cap in sims:
         groups.setdefault((json.dumps(sizes, sort_keys=True), cap), []).append(f)
